@@ -27,7 +27,7 @@ def run(cfg):
     return {
         "evaluations": meta.get("oracle_checked", 0) + model_cases,
         "distinct_nontrivial": meta.get("distinct_nontrivial", 0),
-        "rule": "corpus witnesses (F29, F10, raw-vs-stored probes, F02, spill-on-spill) + 150 (quick) / 3000 (thorough) generated workbooks over 2-3 sheets, 6-40 cells in A1:F8 (chains: 200 rows), kinds: acyclic formula DAG, chain of depth 200, cycles of length 1-5 without / with error-absorbing functions, cross-sheet references, empty-reference and overflow sources with type-sensitive readers, 2-5 dynamic arrays (ranges, SEQUENCE, array literals, lifted arithmetic, X# spill references) in disjoint and competing layouts with readers of spill cells, and spill-boundary reads (a consumer dynamic array reading as a plain range exactly the first row / last row / first column / last column / a corner / an interior cell / all of another anchor's spill, placed before and after the producer in sheet order, on the same and on the other sheet, optionally chained, plus scalar readers). Each workbook: sorted + reverse + 4 (quick) / 12 (thorough) random entry orders x 10 schedules; every value dump is compared with the reference dump (one evaluation = one dump comparison). Non-trivial = workbooks with at least one formula whose value is not an error",
+        "rule": "corpus witnesses (F29, F10, raw-vs-stored probes, F02, spill-on-spill) + 150 (quick) / 3000 (thorough) generated workbooks over 2-3 sheets, 6-40 cells in A1:F8 (chains: 200 rows), kinds: acyclic formula DAG, chain of depth 200, cycles of length 1-5 without / with error-absorbing functions, cross-sheet references, empty-reference and overflow sources with type-sensitive readers, 2-5 dynamic arrays (ranges, SEQUENCE, array literals, lifted arithmetic, X# spill references) in disjoint and competing layouts with readers of spill cells, and spill-boundary reads (a consumer dynamic array reading as a plain range exactly the first row / last row / first column / last column / a corner / an interior cell / all of another anchor's spill, placed before and after the producer in sheet order, on the same and on the other sheet, optionally chained, plus scalar readers). Plus EDIT HISTORIES (120 quick / 1500 thorough + 3 witnesses): dynamic arrays whose extent depends on input cells (SEQUENCE(r,c), TAKE, FILTER, IF-selected ranges; optional second anchor) with scalar readers before and after them; 1-5 rounds of edits that shrink/grow rows only, columns only, both, to 1x1, to an error, evaluation between rounds (also evaluate twice, after every edit, reload between rounds / at the end, reversed entry of the base), every cell of the used area compared with the DIRECT build of the final workbook. Each workbook: sorted + reverse + 4 (quick) / 12 (thorough) random entry orders x 10 schedules; every value dump is compared with the reference dump (one evaluation = one dump comparison). Non-trivial = workbooks with at least one formula whose value is not an error",
         "samples": meta.get("samples", []),
         "disagreements": dis,
         "oracle_failures": meta.get("oracle_failures", []),
